@@ -571,3 +571,11 @@ Proof.
   - right. cbn. lia.
   - intros [H|[_ H]]; cbn in H; lia.
 Qed.
+
+(* two different offsets of one line never get the same column *)
+Theorem loc_injective_on_line : forall bs i j, i <= length bs -> j <= length bs ->
+  fst (to_loc bs i) = fst (to_loc bs j) -> snd (to_loc bs i) = snd (to_loc bs j) -> i = j.
+Proof.
+  intros bs i j Hi Hj H1 H2. apply (loc_injective bs i j Hi Hj).
+  destruct (to_loc bs i), (to_loc bs j). cbn [fst snd] in *. subst. reflexivity.
+Qed.
